@@ -308,6 +308,9 @@ def worker(lines):
 
 def replay(case):
     row = case['row']
+    if row[0] == 'server_close':
+        r, _ = check_server_close_while_receiving()
+        return r and '%s: %s' % r
     if row[0] == 'close_unblocks':
         r = check_close_unblocks(*row[1:])
         return r and '%s: %s' % r
@@ -340,6 +343,78 @@ def check_close_unblocks(kind, rseed, policy):
     return None
 
 
+def check_server_close_while_receiving():
+    """A thread waits in receive() on a PortServer nobody has connected to; close()
+    and poll() from another thread must return, and the waiting receive must end.
+    Real threads and real (loopback) sockets; generous time limits."""
+    import threading
+    import time
+    import mido.ports as mp
+    from mido.sockets import PortServer
+    state = {'sleeps': 0}
+    saved = mp.sleep
+
+    def sleep_hook():
+        state['sleeps'] += 1
+        time.sleep(0.001)
+    mp.sleep = sleep_hook
+    server = None
+    try:
+        try:
+            server = PortServer('127.0.0.1', 0)
+        except OSError as e:
+            return None, 'skipped: cannot bind loopback (%r)' % (e,)
+        box = {}
+
+        def waiter():
+            try:
+                box['r'] = server.receive()
+            except Exception as e:
+                box['exc'] = type(e).__name__
+        th = threading.Thread(target=waiter, daemon=True)
+        th.start()
+        t0 = time.time()
+        while state['sleeps'] < 3 and time.time() - t0 < 2 and th.is_alive():
+            time.sleep(0.002)             # the waiter is inside its wait loop now
+        res = {}
+
+        def other():
+            try:
+                res['poll'] = server.poll()
+                server.close()
+                res['closed'] = True
+            except Exception as e:
+                res['exc'] = repr(e)
+        t2 = threading.Thread(target=other, daemon=True)
+        t2.start()
+        t2.join(5.0)
+        stuck = t2.is_alive()
+        if stuck:
+            # rescue the stuck threads so that the process can go on: connect once
+            try:
+                import socket
+                socket.create_connection(server._socket.getsockname(), timeout=1).close()
+            except Exception:
+                pass
+            t2.join(2.0)
+            th.join(2.0)
+            return ('server-close-blocked-by-waiting-receive',
+                    'poll()/close() from another thread did not return within 5 s while a receive() was waiting on a PortServer without clients'), None
+        th.join(5.0)
+        if th.is_alive():
+            return ('server-receive-not-ended-by-close', 'receive() still waiting 5 s after close()'), None
+        if 'exc' in res or res.get('poll') is not None or box.get('exc') not in ('OSError', 'ValueError'):
+            return ('server-close-results', 'other thread: %r; waiting receive: %r' % (res, box)), None
+        return None, None
+    finally:
+        mp.sleep = saved
+        if server is not None:
+            try:
+                server.close()
+            except Exception:
+                pass
+
+
 def run(ctx):
     thorough = ctx.tier == 'thorough'
     if thorough:
@@ -370,6 +445,12 @@ def run(ctx):
         ctx.replayed += 1
         if r:
             ctx.violation('lifecycle/%s/%s' % (r[0], kind), {'row': ['close_unblocks', kind, rseed, policy]}, r[1])
+    r, skipped = check_server_close_while_receiving()
+    ctx.replayed += 1
+    if skipped:
+        ctx.observations.append(skipped)
+    if r:
+        ctx.violation('lifecycle/' + r[0], {'row': ['server_close']}, r[1])
     # a real device that closes itself: SocketPort on a socketpair (the peer
     # disconnects before / between / after the messages); the connection must
     # be released exactly once
